@@ -44,7 +44,7 @@ def b01 (b : Bool) : String := if b then "1" else "0"
 
 def showFields (f : Fields) (withPa : Bool) : String :=
   let pa := if withPa then s!" pa={f.producedAt}" else " pa60=1"
-  s!"ok st={f.status} serial={f.serial}{pa} this={f.thisUpdate} next={f.nextUpdate} rev={f.revokedAt} reason={f.reason} hash={f.hash} alg={f.sigAlg} byname={b01 f.byName} cert={b01 f.hasCert} next={f.nExt}"
+  s!"ok st={f.status} serial={f.serial}{pa} this={f.thisUpdate} next={f.nextUpdate} rev={f.revokedAt} reason={f.reason} hash={f.hash} alg={f.sigAlg} byname={b01 f.byName} cert={b01 f.hasCert} next={f.nExt} raw=1"
 
 def showRes (r : Res) (withPa : Bool) : String :=
   match r with
@@ -137,6 +137,16 @@ def handlePreq (o : Op) : Option String := do
     hashOid := ← (o.get? "f.hashOid").bind oid?, nameHash := ← o.hex? "f.nh", keyHash := ← o.hex? "f.kh", serial := ← o.int? "f.serial" }
   pure (showReq (parseRequest f))
 
+def joinNat (l : List Nat) : String := ",".intercalate (l.map toString)
+
+def handleConst : String :=
+  s!"status={joinNat statusConsts} reasons={joinNat reasonConsts} rs={joinNat respStatusConsts} names={"|".intercalate ((List.range 8).map (fun n => respStatusName (Int.ofNat n)))}|{respStatusName (-1)}"
+
+def handleErrvar (o : Op) : Option String := do
+  let n ← o.get? "name"
+  let s ← errorResponseStatus n
+  pure (showRes (parseResponse (errorResponseFacts s) none ((o.get? "issuer") == some "1")) true)
+
 def handle (line : String) : String :=
   let o := parseOp line
   let r := match o.cmd with
@@ -144,6 +154,8 @@ def handle (line : String) : String :=
     | "cr" => handleCr o
     | "req" => handleReq o
     | "preq" => handlePreq o
+    | "const" => some handleConst
+    | "errvar" => handleErrvar o
     | _ => none
   r.getD "bad-op"
 
